@@ -483,13 +483,15 @@ func c02Seeds() [][]Op {
 		{{K: "Start", Repo: "r"}, {K: "Write", H: 0, Piece: "a"}, {K: "Commit", H: 0}, {K: "Cancel", H: 0}},
 		// an upload under a caller-chosen ID in one repository (the same ID may then be used in the other)
 		{{K: "Start", Repo: "r", Off: "id", Piece: "xid"}, {K: "Write", H: 0, Piece: "a"}},
+		// one digest held as a blob and as a manifest, met as a layer before it is met as a manifest
+		{{K: "PushBlob", Repo: "r", B: 1}, {K: "PushBlob", Repo: "r", B: 2}, {K: "PushBlob", Repo: "r", B: 3}, {K: "PushManifest", Repo: "r", M: 1}, {K: "PushManifest", Repo: "r", M: 12}, {K: "PushManifest", Repo: "r", M: 13, Tag: "t"}},
 		// same bytes under two media types
 		{{K: "PushBlob", Repo: "r", B: 1}, {K: "PushBlob", Repo: "r", B: 2}, {K: "PushManifest", Repo: "r", M: 1, Tag: "t"}, {K: "PushManifest", Repo: "r", M: 8}},
 	}
 }
 
 func c02Check(r *vcore.Run) vcore.Coverage {
-	u := newUniverse()
+	u := newUniverse().withDualRole()
 	var states, trans int64
 	var notes []map[string]any
 	exhaustive := true
@@ -560,7 +562,7 @@ func c02Replay(r *vcore.Run, sub string, raw json.RawMessage) {
 	if err := json.Unmarshal(raw, &c); err != nil {
 		panic(err)
 	}
-	u := newUniverse()
+	u := newUniverse().withDualRole()
 	s := newMemSys(r, "C02", u, c02Alphabet(u, "quick", true), c.Mode == "immutable-tags")
 	for _, op := range c.History {
 		if s.Apply(op, true) {
